@@ -33,6 +33,13 @@ BODY = ('[<dtml-var sequence-number>|<dtml-var sequence-item>|<dtml-var sequence
 SRC_VARS = ('<dtml-in seq start=st end=en size=sz orphan=orp overlap=ovl>' + BODY +
             '<dtml-else>EMPTY</dtml-in>')
 
+# the `previous` / `next` attribute forms: the body is rendered once iff such a batch exists (else the else
+# body) and the previous-/next-sequence variables describe it
+MODE_VARS = ('|<dtml-var %(m)s-sequence>|<dtml-var %(m)s-sequence-start-number>|<dtml-var %(m)s-sequence-end-number>|'
+             '<dtml-var %(m)s-sequence-size>|<dtml-var %(m)s-sequence-start-index>|<dtml-var %(m)s-sequence-end-index>')
+SRC_MODE = {m: ('<dtml-in seq %s start=st end=en size=sz orphan=orp overlap=ovl>B' % m + MODE_VARS % {'m': m} +
+                '<dtml-else>NONE</dtml-in>') for m in ('previous', 'next')}
+
 GRID = {
     'quick': dict(length=range(0, 8), start=range(-1, 10), end=range(-1, 10),
                   size=range(-1, 5), orphan=range(0, 3), overlap=range(0, 3)),
@@ -94,6 +101,7 @@ class OptMonitor:
     def __init__(self, ctx):
         self.ctx = ctx
         self.bad = []
+        self.mode_templates = None
 
     def install(self):
         from DocumentTemplate import DT_In
@@ -252,7 +260,41 @@ def check_window(ctx, mon, tmpl, mode, length, st, en, sz, orp, ovl, container, 
                       detail={'output': out[:600]})
     ctx.count('window:rendered')
     step = int(recs[0][12])
+    if not problems and mode in ('vars', 'rand') and mon.mode_templates:
+        check_modes(ctx, mon, case, length, s, e,
+                    (num(first_r[6]), num(first_r[7]), num(first_r[8])) if s > 1 else None,
+                    (num(last_r[9]), num(last_r[10]), num(last_r[11])) if e < length else None)
     return s, e, nxt, prv, step
+
+
+def check_modes(ctx, mon, case, length, s, e, prev_ann, next_ann):
+    """<dtml-in seq previous ...> / <dtml-in seq next ...> with the same parameters: the body once iff the
+    window (as the plain rendering showed it, already judged against the model) has a neighbour on that side,
+    announcing the same neighbour as the plain rendering did, with size = end+1-start and index = number-1."""
+    for m, ann in (('previous', prev_ann), ('next', next_ann)):
+        seq = list(range(1, length + 1)) if case['container'] != 'tuple' else tuple(range(1, length + 1))
+        c2 = dict(case, mode=m)
+        try:
+            out = mon.mode_templates[m](seq=seq, st=case['start'], en=case['end'], sz=case['size'],
+                                        orp=case['orphan'], ovl=case['overlap'])
+        except Exception as ex:
+            ctx.violation('%s-attribute render raised %s: %s' % (m, type(ex).__name__, str(ex)[:120]), c2,
+                          key='mode_raise_%s_%d_%d_%d_%d_%d_%d' % (m, length, case['start'], case['end'],
+                                                                case['size'], case['orphan'], case['overlap']))
+            continue
+        ctx.count('modes:%s attribute renders' % m)
+        if ann is None:
+            want = 'NONE'
+        else:
+            a, b, n = ann
+            want = 'B|1|%d|%d|%d|%d|%d' % (a, b, b + 1 - a, a - 1, b - 1)
+            ctx.count('modes:%s batch announced' % m)
+        if out != want and not (ann is not None and out.startswith('B|') and
+                                [truthy(out.split('|')[1])] + out.split('|')[2:] == [True] + want.split('|')[2:]):
+            ctx.violation('<dtml-in seq %s ...> rendered %r, the plain rendering of the same window %d..%d of %d '
+                          'announces %r' % (m, out[:80], s, e, length, want), c2,
+                          key='mode_%s_%d_%d_%d_%d_%d_%d' % (m, length, case['start'], case['end'], case['size'],
+                                                          case['orphan'], case['overlap']))
 
 
 # ---------------------------------------------------------------- traversal
@@ -348,6 +390,7 @@ def run(ctx, spec):
     mon.install()
     tmpl = HTML(SRC_VARS)
     tmpl.cook()
+    mon.mode_templates = {m: HTML(src) for m, src in SRC_MODE.items()}
     g = GRID[ctx.tier]
     space = itertools.product(g['length'], g['start'], g['end'], g['size'], g['orphan'], g['overlap'])
     lit_cache = {}
@@ -410,6 +453,9 @@ def finish(agg):
     for r in ('reach:DT_InSV.opt', 'reach:InClass.renderwb'):
         if not c.get(r):
             inc.append('anchor never entered: ' + r)
+    for m in ('previous', 'next'):
+        if not c.get('modes:%s batch announced' % m):
+            inc.append('the %s attribute form never announced a batch' % m)
     if not c.get('traversals'):
         inc.append('no link traversal ran')
     g = GRID[agg['tier']]
@@ -427,6 +473,9 @@ def replay(ctx, rep):
     mon = OptMonitor(ctx)
     mon.install()
     c = rep['case']
+    mon.mode_templates = {m: HTML(src) for m, src in SRC_MODE.items()}
+    if c.get('mode') in ('previous', 'next'):
+        c = dict(c, mode='vars')        # the plain rendering is re-run first; it calls the attribute forms
     if c.get('mode') == 'traverse':
         traverse(ctx, mon, HTML(SRC_VARS), c['length'], c['size'], c['orphan'], c['overlap'], c['container'])
         return
